@@ -268,12 +268,15 @@ struct WkdRun {
         KeyM* pk0 = pick_key(op.arg(0)); if (!pk0 || pk0->tainted || sys.l == 0) return;
         size_t pi = (size_t) (pk0 - &keys[0]);
         std::vector<Slot> cur; std::vector<MAttr> from;
-        resolve(keys[pi].pat, op.s, 0, false, from, cur);
+        // one time in seven the holder narrows its own key in place: the key object is a plain copy of the parent (empty `from` list) and the
+        // first adjustment names it as both the key to rewrite and the parent it was derived from
+        bool inplace = ((op.arg(0) >> 2) % 7) == 0 && op.s.size() >= 2 * (size_t) sys.l;
+        { std::vector<std::string> blank; if (inplace) blank.assign((size_t) sys.l, "-"); resolve(keys[pi].pat, inplace ? blank : op.s, 0, false, from, cur); }
         size_t pl = count_free(keys[pi].pat);
         KeyM k = newkey(std::max((size_t) sys.l - from.size(), pl));
         // one time in six the key to be adjusted was derived with the omit-all flag: same a0/a1, no free-slot entries at all. The adjustment
         // (whose lists do not carry the flag) must still produce the key for `to`, free slots included - it may not rely on what sk.b held.
-        bool start_omit_all = ((op.arg(0) >> 5) % 6) == 0;
+        bool start_omit_all = ((op.arg(0) >> 5) % 6) == 0 && !inplace;
         { JAttrs ja(from, start_omit_all); call_begin(1); R.jv_wk_nd_qualifykey(view, k.sk, sys.params, keys[pi].sk, &ja.l); }
         if (start_omit_all) { for (auto& sl : cur) if (sl.st == ST_FREE) sl.st = ST_HIDDEN; env.count("probe:adjusted_key_was_derived_with_omit_all"); }
         k.rho = keys[pi].rho; k.pat = cur; k.ndchild = true; k.ndparent = (int) pi; k.ndlist = from;
@@ -295,7 +298,8 @@ struct WkdRun {
             // the Go wrapper reallocates the slot array to the parent's count before the call
             KeyM& kk = keys[ki];
             { JAttrs jf(kk.ndlist, false), jt(to, false); if (jf.share_array_with(jt) || jt.share_array_with(jf)) env.count("fault:from_and_to_lists_are_views_of_one_array");
-              call_begin(1); R.jv_wk_adjust_nd(view, kk.sk, keys[pi].sk, &jf.l, &jt.l); expect_no_draws("adjust_nondelegable"); }
+              bool self = inplace && b == 1 && kk.ndlist.empty(); if (self) env.count("fault:adjust_in_place_key_is_its_own_parent");
+              call_begin(1); R.jv_wk_adjust_nd(view, kk.sk, self ? kk.sk : keys[pi].sk, &jf.l, &jt.l); expect_no_draws("adjust_nondelegable"); }
             std::vector<Slot> before = kk.pat; std::vector<MAttr> fromL = kk.ndlist;
             kk.pat = nxt; kk.ndlist = to;
             for (auto& a : fromL) if (a.id >= K().r) env.count("probe:adjust_from_id_ge_r");
